@@ -3,6 +3,7 @@ package symgo
 import (
 	"fmt"
 	"math/big"
+	"math/bits"
 	"strings"
 )
 
@@ -45,7 +46,7 @@ const (
 	OpBOr
 	OpIte
 	// Real/Int
-	OpRConst  // Name = rational string
+	OpRConst // Name = rational string
 	OpRAdd
 	OpRSub
 	OpRMul
@@ -85,8 +86,8 @@ type termKey struct {
 
 // TermTable hash-conses terms. One per worker (not thread-safe).
 type TermTable struct {
-	m    map[termKey]*Term
-	next int
+	m           map[termKey]*Term
+	next        int
 	True, False *Term
 }
 
@@ -181,6 +182,28 @@ func (tt *TermTable) Bin(op Op, a, b *Term) *Term {
 		}
 	}
 	m := mask(w)
+	// narrow unsigned arithmetic whose result provably fits in far fewer bits
+	if (op == OpAdd || op == OpMul) && w >= 32 && w <= 64 {
+		ua, ub := ubound(a), ubound(b)
+		var res uint64
+		ok := false
+		if op == OpAdd {
+			s, c := bits.Add64(ua, ub, 0)
+			res, ok = s, c == 0
+		} else {
+			hi, lo := bits.Mul64(ua, ub)
+			res, ok = lo, hi == 0
+		}
+		if ok && res < m>>8 && !(a.IsConst() && b.IsConst()) {
+			nw := uint8(bits.Len64(res))
+			if nw < 8 {
+				nw = 8
+			}
+			if nw+8 <= w {
+				return tt.ZExt(tt.Bin(op, tt.Extract(a, 0, nw), tt.Extract(b, 0, nw)), w)
+			}
+		}
+	}
 	switch op {
 	case OpAdd:
 		if a.IsConst() && a.K == 0 {
@@ -480,6 +503,16 @@ func ubound(t *Term) uint64 {
 		if t.A[1].IsConst() && t.A[1].K < 64 {
 			return ubound(t.A[0]) >> t.A[1].K
 		}
+	case OpAdd:
+		a, b := ubound(t.A[0]), ubound(t.A[1])
+		if s, c := bits.Add64(a, b, 0); c == 0 && s <= mask(t.W) {
+			return s
+		}
+	case OpMul:
+		a, b := ubound(t.A[0]), ubound(t.A[1])
+		if hi, lo := bits.Mul64(a, b); hi == 0 && lo <= mask(t.W) {
+			return lo
+		}
 	case OpURem:
 		if t.A[1].IsConst() && t.A[1].K > 0 {
 			return t.A[1].K - 1
@@ -516,6 +549,35 @@ func (tt *TermTable) Cmp(op Op, a, b *Term) *Term {
 		default:
 			return tt.False
 		}
+	}
+	if w != SortBool && w <= 64 && a.Op == OpZExt && (b.Op == OpZExt || b.IsConst()) {
+		// compare at the narrowest sufficient width
+		nw := a.A[0].W
+		if b.Op == OpZExt && b.A[0].W > nw {
+			nw = b.A[0].W
+		}
+		if b.IsConst() && b.K > mask(nw) {
+			nw = w
+		}
+		if nw < w {
+			uop := op
+			if op == OpSLt {
+				uop = OpULt
+			} else if op == OpSLe {
+				uop = OpULe
+			}
+			return tt.Cmp(uop, tt.Extract(a, 0, nw), tt.Extract(b, 0, nw))
+		}
+	}
+	if w != SortBool && w <= 64 && b.Op == OpZExt && a.IsConst() && a.K <= mask(b.A[0].W) {
+		nw := b.A[0].W
+		uop := op
+		if op == OpSLt {
+			uop = OpULt
+		} else if op == OpSLe {
+			uop = OpULe
+		}
+		return tt.Cmp(uop, tt.Const(nw, a.K), b.A[0])
 	}
 	if w != SortBool && w <= 64 {
 		ua, ub := ubound(a), ubound(b)
